@@ -92,6 +92,9 @@ class Actor:
         self.priority = 0
         self.crash_at = None         # crash when parked at yield number k (1-based)
         self.crash_site = None       # (label prefix, occurrence)
+        self.interrupt_at = None     # deliver KeyboardInterrupt (SIGINT) when parked at yield number k: unlike a kill, the
+        self.interrupt_now = False   # process unwinds through its `finally:` / `with` clean-up code, step by step
+        self.interrupted = False
         self.names_used = 0
         self.name_collide = None
         self.net = None              # network plan, owned by the machine
@@ -126,6 +129,8 @@ class Actor:
 
 
 CLOCK_BASE = 1.7e9
+HARD_STEP_CAP = 120000
+WAIT_HORIZON = 6 * 3600.0
 COST = {"net": 0.0, "sleep": 0.0, "stat": 2e-5, "open": 5e-5, "write": 1e-4, "close": 5e-5, "rename": 5e-5}
 
 
@@ -210,6 +215,10 @@ class Sim:
         if a.dead:
             raise Killed()
         a.state = RUNNING
+        if a.interrupt_now:
+            # the signal arrives between two operations: the pending one is not performed
+            a.interrupt_now = False
+            raise KeyboardInterrupt()
 
     def _resume(self, a):
         performed = a.pending
@@ -270,7 +279,14 @@ class Sim:
         return order[self.stream.draw(0, len(order) - 1, "sched")]
 
     def run(self, on_step=None, step_cap=4000):
-        """Run until no actor can make a step. Returns when all are done or crashed."""
+        """Run until no actor can make a step. Returns when all are done or crashed.
+
+        The step cap is a bound on WORK, not on waiting: a process that sleeps between its steps (polling a lock
+        held by a slow or dead process until a lease runs out, say) makes simulated time pass, and "a later load
+        succeeds" promises no deadline.  So each time the cap is reached it is extended while the actors have slept
+        since the last extension - up to WAIT_HORIZON seconds of sleeping and HARD_STEP_CAP steps in all."""
+        sleeps0, hard = self.stats["sleeps"], self.step + HARD_STEP_CAP
+        slept_start = getattr(self, "slept_seconds", 0.0)
         while True:
             live = [a for a in self.actors if a.state in (NEW, PARKED)]
             if not live:
@@ -297,12 +313,24 @@ class Sim:
                 if on_step:
                     on_step(a, "CRASH")
                 continue
+            if a.state == PARKED and a.interrupt_at is not None and a.yields >= a.interrupt_at and not a.interrupted \
+                    and not (a.pending or "").startswith("close.implicit"):     # not inside __del__: Python would drop it
+                a.interrupted = True
+                a.interrupt_now = True
+                self.note(a.id, "INTERRUPT", a.pending)
+                self.stats["fault:interrupt"] += 1
             performed = self._resume(a)
             self.last = a if a.state == PARKED else None
             self.step += 1
             if on_step:
                 on_step(a, performed)
             if self.step >= step_cap:
+                slept = self.stats["sleeps"] - sleeps0
+                if slept > 0 and self.step < hard and getattr(self, "slept_seconds", 0.0) - slept_start < WAIT_HORIZON:
+                    sleeps0 = self.stats["sleeps"]
+                    step_cap += 8 * slept + 50
+                    self.stats["probe:step-cap-extended-while-waiting"] += 1
+                    continue
                 raise StepCap(f"step cap {step_cap} reached")
 
     def reap(self):
@@ -385,12 +413,18 @@ def _audit(event, args):
         op = _MUTATING[event]
         paths = [x for x in args[:2] if isinstance(x, (str, bytes, os.PathLike))] if op in (
             "rename", "link", "symlink", "copyfile", "move", "copytree") else [args[0]]
-        labels, rels, outside, fulls = [], [], False, []
+        labels, rels, outside, fulls, parents = [], [], False, [], []
         for p in paths:
             ps = os.fsdecode(os.fspath(p)) if not isinstance(p, int) else str(p)
             if not os.path.isabs(ps) and op in ("remove", "rmdir") and len(args) > 1 and args[-1] not in (None, -1):
                 labels.append("rel")
                 rels.append(ps)
+                try:        # unlink(name, dir_fd=fd), as shutil.rmtree does it: the directory behind fd changes
+                    parent = os.readlink(f"/proc/self/fd/{int(args[-1])}")
+                    if _under_root(sim, parent):
+                        parents.append(parent)
+                except (OSError, TypeError, ValueError):
+                    pass
                 continue
             full = _under_root(sim, ps)
             if full is None:
@@ -408,6 +442,8 @@ def _audit(event, args):
             if all(x == "OUTSIDE" for x in labels):
                 return
         sim.yield_point(a, op + ":" + ">".join(labels), ">".join(rels))
+        for parent in parents:
+            a.touch.add(parent)
         for full in fulls:
             a.touch.add(os.path.dirname(full))
             if op in ("mkdir", "rename", "copyfile", "move", "link", "symlink", "truncate"):
@@ -545,6 +581,7 @@ def _sim_sleep(seconds):
     if float(seconds) < 0:
         raise ValueError("sleep length must be non-negative")
     sim.stats["sleeps"] += 1
+    sim.slept_seconds = getattr(sim, "slept_seconds", 0.0) + float(seconds)
     a.attrs["slept"] = a.attrs.get("slept", 0.0) + float(seconds)
     sim.yield_point(a, "sleep", round(float(seconds), 6), cost=max(0.0, float(seconds)))
 
